@@ -211,6 +211,9 @@ fn main() -> ExitCode {
         if args.only.as_ref().is_some_and(|o| o != sub.name) {
             continue;
         }
+        if (if args.thorough { sub.thorough } else { sub.quick }) == 0 {
+            continue; // replay-only entry (its cases come from an enumeration stage)
+        }
         let scaled = engine::SubCheck {
             name: sub.name,
             rule: sub.rule,
@@ -256,6 +259,34 @@ fn main() -> ExitCode {
         }
     }
 
+    let mut exhaustive = false;
+    if let Some(enumerate) = prop.enumerate {
+        if args.only.is_none() {
+            let st = Timer::start();
+            let rep = enumerate(args.thorough);
+            evaluations += rep.evaluations;
+            distinct += rep.distinct_nontrivial;
+            exhaustive = rep.exhaustive;
+            rules.push(format!("[{}] {}", rep.name, rep.rule));
+            for s in rep.samples.iter().take(3) {
+                samples.push(json!({"subcheck": rep.name, "case": s}));
+            }
+            per_sub.insert(
+                rep.name.to_string(),
+                json!({"evaluations": rep.evaluations, "distinct_nontrivial": rep.distinct_nontrivial, "shapes_enumerated": rep.space_size,
+                       "exhaustive": rep.exhaustive, "wall_s": st.secs(), "failed": rep.failure.is_some()}),
+            );
+            if let Some((message, direct)) = rep.failure {
+                violations += 1;
+                let mut fail = engine::Failure { subcheck: rep.name.to_string(), message, tape: Vec::new(), case: Some(direct.clone()), direct: Some(direct), replay_path: None };
+                let dir = known::root().join("replays").join(prop.id);
+                write_replay(&dir, prop.id, &mut fail, args.seed);
+                println!("FAIL {}[{}]: {}", prop.id, fail.subcheck, fail.message);
+                println!("VIOLATION property={} replay={}", prop.id, fail.replay_path.as_ref().map_or_else(|| "<unwritable>".to_string(), |p| p.display().to_string()));
+            }
+        }
+    }
+
     let evidence = json!({
         "property_id": prop.id,
         "tier": if args.thorough { "thorough" } else { "quick" },
@@ -272,6 +303,7 @@ fn main() -> ExitCode {
             "excluded_out_of_domain": excluded_domain,
             "subchecks": per_sub,
             "exhaustive": false,
+            "exhaustive_stage_completed": exhaustive,
         },
         "assumptions": prop.assumptions,
         "known_findings": known_lines,
